@@ -583,7 +583,7 @@ class GetItem(Contract):
             return [sels[d][1](next(it)) if d in kept else sels[d][1]() for d in range(rank)]
 
         if not kept:
-            yield "scalar-result-is-the-addressed-cell", S.land(S.lnot(S.is_dimarray(result)), result == S.at(data, *src(())))
+            yield "scalar-result-is-the-addressed-cell", S.land(S.lnot(S.is_dimarray(result)), S.same(result, S.at(data, *src(()))))
             return
         yield "is-dimarray", S.is_dimarray(result)
         yield "dims-are-the-kept-dimensions-in-order", tuple(result.dims) == tuple("x%d" % d for d in kept)
@@ -599,7 +599,7 @@ class GetItem(Contract):
                 yield "dim%d:labels-are-the-requested-labels-in-order" % d, S.land(
                     S.n(Lr) == S.n(q), S.forall(0, S.n(q), lambda k: S.at(Lr, k) == S.at(q, k)))
         shape = [sels[d][0] for d in kept]
-        yield "cells", S.forall_nd(shape, lambda *ks: S.at(rv, *ks) == S.at(data, *src(ks)))
+        yield "cells", S.forall_nd(shape, lambda *ks: S.same(S.at(rv, *ks), S.at(data, *src(ks))))
         if case["indexing"] == "label":
             # the headline statement: each selected cell is the one stored at the requested label coordinates
             for d, k in enumerate(case["kinds"]):
@@ -898,7 +898,29 @@ class SetItem(Contract):
     def raises(self, S, case, env):
         if case["spelling"] == "ndmask":
             return {}
-        return GetItem().raises(S, case, env)
+        if case["indexing"] != "position":
+            return GetItem().raises(S, case, env)
+        # positions: a scalar out of range always raises (as in NumPy).  An out-of-range entry of a position LIST must be
+        # reported when every other dimension selects something (cells would be touched); when another dimension selects
+        # nothing NumPy itself checks or not depending on how the key is spelled, and the statement is silent: allowed.
+        bad_scalar, bad_array, nonempty = [], [], {}
+        for d, k in enumerate(case["kinds"]):
+            n = S.n(env["labels"][d])
+            i = env["idx"][d]
+            if k == "scalar":
+                bad_scalar.append(S.lor(i < -n, i >= n))
+            elif k == "array":
+                bad_array.append((d, S.exists(0, S.n(i), lambda j, i=i, n=n: S.lor(S.at(i, j) < -n, S.at(i, j) >= n))))
+                nonempty[d] = S.n(i) > 0
+            elif k == "mask":
+                nonempty[d] = S.n(S.mask_positions(i)) > 0
+            elif k.startswith("slice"):
+                nonempty[d] = slice_count(S, n, i.start, i.stop, i.step)[1] > 0
+            else:
+                nonempty[d] = n > 0
+        must = S.lor(*(bad_scalar + [S.land(b, *[ne for e, ne in nonempty.items() if e != d]) for d, b in bad_array]))
+        may = S.lor(*(bad_scalar + [b for d, b in bad_array]))
+        return {IndexError: (must, may)}
 
     def post(self, S, case, env, result):
         arr, labels, old = env["arr"], env["labels"], env["old"]
@@ -908,12 +930,12 @@ class SetItem(Contract):
             yield "in-place-returns-none", result is None
         else:
             yield "copy-returned", S.land(S.is_dimarray(result), result is not arr, S.lnot(S.same_buffer(result.values, arr.values)))
-            yield "receiver-untouched", S.forall_nd(S.shape(old), lambda *p: S.at(arr.values, *p) == S.at(old, *p))
+            yield "receiver-untouched", S.forall_nd(S.shape(old), lambda *p: S.same(S.at(arr.values, *p), S.at(old, *p)))
         new = target.values
         v = env["value"]
         if case["spelling"] == "ndmask":
             mask = env["idx"][0]
-            yield "masked-cells-set-others-kept", S.forall_nd(S.shape(old), lambda *p: S.at(new, *p) == S.ite(S.at(mask, *p), v, S.at(old, *p)))
+            yield "masked-cells-set-others-kept", S.forall_nd(S.shape(old), lambda *p: S.same(S.at(new, *p), S.ite(S.at(mask, *p), v, S.at(old, *p))))
         else:
             calls = S.calls("GetIndices")
             pos = calls[-1][3] if calls else target._get_indices(env["indices"], **env["kwargs"])
@@ -925,13 +947,13 @@ class SetItem(Contract):
                 return [sels[d][1](next(it)) if d in kept else sels[d][1]() for d in range(rank)]
             shape = [sels[d][0] for d in kept]
             if case["value"] == "scalar":
-                yield "addressed-cells-hold-the-value", S.forall_nd(shape, lambda *ks: S.at(new, *src(ks)) == v)
+                yield "addressed-cells-hold-the-value", S.forall_nd(shape, lambda *ks: S.same(S.at(new, *src(ks)), v))
             else:
-                yield "addressed-cells-hold-the-value", S.forall_nd(shape, lambda *ks: S.at(new, *src(ks)) == S.at(v, *ks))
+                yield "addressed-cells-hold-the-value", S.forall_nd(shape, lambda *ks: S.same(S.at(new, *src(ks)), S.at(v, *ks)))
 
             def addressed(p):
                 return S.land(*[sels[d][2](p[d]) for d in range(rank)])
-            yield "other-cells-untouched", S.forall_nd(S.shape(old), lambda *p: S.lor(S.at(new, *p) == S.at(old, *p), addressed(p)))
+            yield "other-cells-untouched", S.forall_nd(S.shape(old), lambda *p: S.lor(S.same(S.at(new, *p), S.at(old, *p)), addressed(p)))
         yield "shape-kept", tuple(S.shape(new)) == tuple(S.shape(old)) if S.mode == "nat" else len(S.shape(new)) == len(S.shape(old))
         yield "labels-dims-metadata-untouched", S.land(
             tuple(target.dims) == tuple("x%d" % d for d in range(rank)), dict(target.attrs) == {"units": "K"},
@@ -942,7 +964,7 @@ class SetItem(Contract):
 
     def canaries(self, S, case, env, result):
         target = env["arr"] if case["inplace"] else result
-        yield "nothing-written", S.forall_nd(S.shape(env["old"]), lambda *p: S.at(target.values, *p) == S.at(env["old"], *p))
+        yield "nothing-written", S.forall_nd(S.shape(env["old"]), lambda *p: S.same(S.at(target.values, *p), S.at(env["old"], *p)))
 
 
 def MaybeCastTable(old, new):
